@@ -92,6 +92,7 @@ def sample_AABB(
         res = round(np.power(n_pts, 1/box.dim))
         Xdims = (np.linspace(0,1,res) for _ in range(box.dim))
         points = np.vstack(list(map(np.ravel, np.meshgrid(*Xdims)))).T
+        points = box.mini + box.span * points
     if return_point_cloud:
         return from_arrays(points)
     else:
